@@ -15,10 +15,13 @@ Round 4: cht and cbt (the loops over the tab stops) are covered too — `range_c
 print(): `range_print` — every good state, every glyph width ≤ 65535 (uniseg gives 0..2): `col + w - 1`, `width - 1`, the
 insert-mode shift loop, the trailing-cell loop and the cursor advance stay in range, across the wrap's `vt.nel()` call (the
 invariant after it from `nel_safe`) and on the grid the shift loop leaves (a successful loop keeps the grid's shape).
-Open: resize (function-level loops, `printCell`); tbc/hts, sgr/osc/modes have no arithmetic on positions.
+resize(): `range_resize` — through `rangeR` (Model/EmuBodyRangeR.lean: `rangeS` plus the function-level loops `forS`, the
+allocation statements, the saved-cursor clamp and `printCell` = the check of print()'s body in the state of the call): every good
+old state with stored cell widths ≤ 65535, every new size 1..65535. tbc/hts, sgr/osc/modes have no arithmetic on positions.
 -/
 import VaxisModel.Lemmas.EmuBodyRange
 import VaxisModel.Lemmas.EmuBodyRange2
+import VaxisModel.Lemmas.EmuBodyRange3
 
 namespace VaxisModel.Props.C05Overflow
 open VaxisModel.Model.Emu VaxisModel.Model.EmuBody VaxisModel.Lemmas.Emu VaxisModel.Lemmas.EmuBody VaxisModel.Gen
@@ -450,6 +453,65 @@ theorem range_print {e : Emu} {rows cols : Nat} (h : EmuInv e rows cols) (d : Di
 example : rangeBody TermBodies.body_print [] [2] { Emu.init with right := 79, bottom := 0, primary := [List.replicate 80 {}], alt := [List.replicate 80 {}] } = true := by decide
 example : rangeBody TermBodies.body_print [] [2] { Emu.init with right := 7, bottom := 0, mode := { irm := true, decawm := true }, primary := [List.replicate 8 {}], alt := [List.replicate 8 {}] } = true := by decide
 example : rangeBody TermBodies.body_print [] [4611686018427387904] { Emu.init with right := 79, bottom := 0, cur := { col := 5 }, primary := [List.replicate 80 {}], alt := [List.replicate 80 {}] } = false := by decide
+
+/-- **resize(): no `+`/`-` of the Go code leaves ±2^62** — `row(h) - 1`, `column(w) - 1` (margins, the clamp of both saved cursors),
+    the counters of the two reflow loops (bounded by the size of the OLD screen), and every `vt.print` call of the reflow (checked by
+    the chain of `range_print` in the state the call is made in: the invariant at the NEW size holds there by `print_safe` /
+    `nel_safe`) — for every good old state (≤ 65535², stored cell widths ≤ 65535) and every new size 1..65535. -/
+theorem range_resize {e : Emu} {rows cols : Nat} (h : EmuInv e rows cols) (d : Dim rows cols) (w hh : Int)
+    (hw1 : 1 ≤ w) (hw2 : w ≤ 65535) (hh1 : 1 ≤ hh) (hh2 : hh ≤ 65535)
+    (hcw : ∀ r ∈ e.primary, ∀ c ∈ r, (c.w : Int) ≤ 65535) :
+    rangeBodyR TermBodies.body_resize [] [w, hh] e = true := by
+  have dN : Dim hh.toNat w.toNat := ⟨by omega, by omega, by omega, by omega⟩
+  have hinvN := resizeInit_inv (resizePre_of_inv h) hw1 hh1
+  simp only [rangeBodyR, TermBodies.body_resize, stmt_resize_shape, resizeWith]
+  simp only [rangeR, rangeS, exR, evalS, evalEx, exOk, Frame.get, Frame.set, initFrame, andThen_norm, ok_bind,
+    List.getD_cons_zero, List.getD_cons_succ, List.getD_nil, Bool.true_and, Bool.and_true, if_true]
+  have hneg : ¬ hh < 0 := by omega
+  have hwneg : ¬ w < 0 := by omega
+  have hne : (List.replicate hh.toNat ([] : Row)).isEmpty = false := by
+    have : hh.toNat = (hh.toNat - 1) + 1 := by omega
+    rw [this, List.replicate_succ]; rfl
+  simp only [hneg, hwneg, if_false, andThen_norm, hne, Bool.false_eq_true, List.length_replicate, Nat.lt_irrefl,
+    List.getD_cons_zero, List.getD_cons_succ, Nat.reduceEqDiff]
+  have hrect : Rect e.primary := by
+    intro r hr
+    rw [h.prim.rowLen r hr]
+    unfold width0
+    split
+    · rename_i hnil; rw [hnil] at hr; cases hr
+    · rename_i r0 _ hcons
+      exact (h.prim.rowLen r0 (by rw [hcons]; exact List.mem_cons_self)).symm
+  have hlenO : (e.primary.length : Int) ≤ 65535 := by rw [h.prim.len]; have := d.rmax; omega
+  have hw0 : (width0 e.primary : Int) ≤ 65535 := by
+    unfold width0
+    split
+    · decide
+    · rename_i r0 _ hcons
+      rw [h.prim.rowLen r0 (by rw [hcons]; exact List.mem_cons_self)]; have := d.cmax; omega
+  have key : ∀ F : Frame, EmuInv F.e hh.toNat w.toNat → F.old = e.primary →
+      (rangeR [] nest F && andThen (evalS [] nest F) fun _ => true) = true := by
+    intro F hF hold
+    rw [Bool.and_eq_true]
+    exact ⟨nest_range dN F (by rw [hold]; exact hrect) (by rw [hold]; exact hcw) (by rw [hold]; exact hlenO) (by rw [hold]; exact hw0) hF,
+      andThen_all _ _ (fun _ => rfl)⟩
+  have hi1 : inR (hh - 1) = true := by unfold inR lim; apply decide_eq_true; constructor <;> omega
+  have hi2 : inR (w - 1) = true := by unfold inR lim; apply decide_eq_true; constructor <;> omega
+  rw [hi1, hi2]
+  simp only [Bool.true_and]
+  apply key
+  · have := hinvN
+    simp only [resizeInit, blankGrid, clampSaved] at this
+    simpa [List.map_replicate, List.take_replicate, List.drop_replicate, Nat.min_self, Nat.sub_self, List.replicate_zero,
+      List.append_nil] using this
+  · rfl
+
+/-- non-vacuity: StartWithSize's first resize (New() has no rows), a 2×1 screen holding a wide glyph re-flowed to 1 column,
+    and the check does look at `h - 1`: it fails for a height of −2^62 in the clamp -/
+example : rangeBodyR TermBodies.body_resize [] [80, 24] Emu.init = true := by decide
+example : rangeBodyR TermBodies.body_resize [] [1, 2]
+    { Emu.init with right := 1, bottom := 0, primary := [[{ g := [228, 184, 150], w := 2 }, {}]], alt := [[{}, {}]] } = true := by decide
+example : rangeR [] (.clampSaved (.lit (-4611686018427387904)) (.lit 1)) (initFrame Emu.init []) = false := by decide
 
 /-- non-vacuity: 44 tab stops, `CSI 3 I` from column 0; and the check does look at the counter: with `n` near 2^62 it fails -/
 example : rangeBody TermBodies.body_cht [] [3] { Emu.init with right := 79, primary := [List.replicate 80 {}], alt := [List.replicate 80 {}] } = true := by decide
